@@ -57,6 +57,29 @@ func (p pd) bytes(x any) []byte {
 	return b
 }
 
+// json renders a wire-form payload for messages.
+func (p pd) json(b []byte) string {
+	if len(b) == 0 {
+		return "<empty>"
+	}
+	x := p.unmarshal(b)
+	var out []byte
+	switch p.sig {
+	case sigLogs:
+		out, _ = (&plog.JSONMarshaler{}).MarshalLogs(x.(plog.Logs))
+	case sigTraces:
+		out, _ = (&ptrace.JSONMarshaler{}).MarshalTraces(x.(ptrace.Traces))
+	case sigProfiles:
+		out, _ = (&pprofile.JSONMarshaler{}).MarshalProfiles(x.(pprofile.Profiles))
+	default:
+		out, _ = (&pmetric.JSONMarshaler{}).MarshalMetrics(x.(pmetric.Metrics))
+	}
+	if len(out) > 1200 {
+		return string(out[:1200]) + "…"
+	}
+	return string(out)
+}
+
 func (p pd) unmarshal(b []byte) any {
 	var x any
 	var err error
@@ -471,6 +494,9 @@ func runC06(r *simkit.Run) {
 	r.Logf("fan-out %s inputRO=%v over %v", p.sig, inputRO, desc)
 	ids := &gen.IDs{Prefix: "i"}
 	payload := p.gen(tp, ids)
+	if tp.Chance(1, 2) {
+		gen.Enrich(tp, payload, tp.Chance(1, 4)) // every value kind, ids, events, links, exemplars, ...
+	}
 	if inputRO {
 		p.markReadOnly(payload)
 	}
